@@ -100,6 +100,7 @@ fn probe_mul(func: &str) -> bool {
 }
 
 fn check_dual(func: &str, a: &Array2<Dual>, b: &Array1<Dual>, lsq: bool) -> bool {
+    crate::CASES.fetch_add(1, std::sync::atomic::Ordering::Relaxed);
     let x = match std::panic::catch_unwind(std::panic::AssertUnwindSafe(|| dsolve(&a.view(), &b.view(), lsq))) {
         Ok(x) => x,
         Err(_) => {
@@ -350,7 +351,7 @@ pub fn probe(func: &str) -> bool {
     std::panic::set_hook(Box::new(|_| {}));
     match func {
         "dsolve21_" | "dsolve" | "dsolve_upper21_" | "dmul11_" | "dmul21_" | "dmul22_" | "argabsmax" | "row_swap" | "el_swap" => probe_mul(func) || probe_dual(func) || probe_dual2(func),
-        "fdsolve21_" | "fdsolve" | "fdsolve_upper21_" | "fdmul11_" | "fdmul21_" => probe_f64(func) || probe_f64_lsq(func) || probe_f64_exhaustive(func),
+        "fdsolve21_" | "fdsolve" | "fdsolve_upper21_" | "fdmul11_" | "fdmul11_f64" | "fdmul11_dual" | "fdmul11_dual2" | "fdmul21_" => probe_f64(func) || probe_f64_lsq(func) || probe_f64_exhaustive(func),
         _ => false,
     }
 }
